@@ -2,15 +2,19 @@ import HeimdallModel.Model.Jwt
 /-!
 # C05 — what entitles a JWT to a subject (specification)
 
-Declarative counterpart of `Model/Jwt.lean`.
+Written from the property text over the **raw payload** (a list of members `kvs` of a JSON object), not over what
+the model's decoder makes of it.  It shares with `Model/Jwt.lean` only vocabulary: the JSON type `Val`, the
+configuration / key / token records, the tokenisers `splitAtChar` / `parts`, the leeway of an `Expectation`, the
+path language of the subject configuration (`Val.get`, `idString`, `attrsSource`) and the generated algorithm lists.
+Everything that decides — how claims are read and which shapes are admissible, which assertion value is in force,
+when scopes are satisfied, which key may justify a token, the validity window — is defined here a second time,
+declaratively, and the theorems of `Props/C05.lean` prove that the model's ladder computes exactly this.
 
-* `Covers`, `Satisfied` — when granted scopes satisfy the required ones (per matching strategy, as relations).
-* `Entitled a validate ks tok c nowMs k` — the key `k` of the key set `ks` justifies accepting the token `tok` with
-  registered claims `c` under the assertions `a` at the instant `nowMs`: one field per clause of the property.
-* `SubjectOf sc payload id attrs` — the subject consists of values of the (verified) payload.
-* `Accepts` — the whole acceptance condition of a request.
-* `Spec.authenticate` — the same as an executable oracle (one conjunction over the candidate keys, no ladder); it is
-  run next to the model by the correspondence check.
+* `Spec.member`, `wellTyped`, `issuer`, `audiences`, `granted`, `date`     — reading the registered claims.
+* `Spec.inForce`                                                            — "the first level that sets a value wins".
+* `Covers`, `WildMatch`, `Satisfied`                                        — scope satisfaction as relations.
+* `Entitled`, `SubjectOf`, `Accepts`                                        — the acceptance condition.
+* `Spec.authenticate`                                                       — the same as an executable oracle.
 -/
 namespace Heimdall.Jwt
 
@@ -37,11 +41,109 @@ def Covers : Strategy → String → String → Prop
 def Satisfied (m : Option ScopesMatcher) (granted : List String) : Prop :=
   ∀ m', m = some m' → ∀ r ∈ m'.required, ∃ g ∈ granted, Covers m'.strategy g r
 
+namespace Spec
+
+/-! ## Reading the payload -/
+
+/-- the member of a JSON object with the given name -/
+def member (k : String) (kvs : List (String × Val)) : Option Val :=
+  (kvs.find? fun kv => kv.1 = k).map (·.2)
+
+/-- a textual claim is a string (or absent / `null`) -/
+def textOk : Option Val → Bool
+  | none => true
+  | some .null => true
+  | some (.str _) => true
+  | some _ => false
+
+/-- a list-valued claim (`aud`, `scp`, `scope`) is a string or an array of strings (or absent) -/
+def stringsOk : Option Val → Bool
+  | none => true
+  | some (.str _) => true
+  | some (.arr l) => l.all fun v => match v with | .str _ => true | _ => false
+  | some _ => false
+
+/-- the integral part of a JSON number -/
+def seconds (m : Int) (e : Nat) : Int := m.tdiv (10 ^ e)
+
+/-- a date claim is a number (or absent / `null`) denoting an instant of the years 1–9999, after the very first
+second of year 1 -/
+def dateOk : Option Val → Bool
+  | none => true
+  | some .null => true
+  | some (.num m e) => decide (-62135596800 < seconds m e) && decide (seconds m e ≤ 253402300799)
+  | some _ => false
+
+/-- the registered claims have admissible shapes -/
+def wellTyped (kvs : List (String × Val)) : Bool :=
+  textOk (member "iss" kvs) && textOk (member "sub" kvs) && textOk (member "jti" kvs) &&
+  stringsOk (member "aud" kvs) && stringsOk (member "scp" kvs) && stringsOk (member "scope" kvs) &&
+  dateOk (member "exp" kvs) && dateOk (member "nbf" kvs) && dateOk (member "iat" kvs)
+
+/-- the issuer the token names: a non-empty string -/
+def issuer (kvs : List (String × Val)) : Option String :=
+  match member "iss" kvs with
+  | some (.str s) => if s = "" then none else some s
+  | _ => none
+
+/-- the strings a list-valued claim denotes: an array as it is, a single string split at blanks -/
+def strings : Option Val → List String
+  | some (.str s) => splitAtChar ' ' s
+  | some (.arr l) => l.filterMap fun v => match v with | .str s => some s | _ => none
+  | _ => []
+
+def audiences (kvs : List (String × Val)) : List String := strings (member "aud" kvs)
+
+/-- the granted scopes: `scp` if it names any, otherwise `scope` -/
+def granted (kvs : List (String × Val)) : List String :=
+  if strings (member "scp" kvs) ≠ [] then strings (member "scp" kvs) else strings (member "scope" kvs)
+
+/-- the instant (seconds since the epoch) a date claim denotes, if the claim is present -/
+def date (k : String) (kvs : List (String × Val)) : Option Int :=
+  match member k kvs with
+  | some (.num m e) => some (seconds m e)
+  | _ => none
+
+/-! ## Assertions in force -/
+
+/-- the first list that is not empty -/
+def firstSet {α : Type} (ls : List (List α)) : List α := (ls.find? fun l => !l.isEmpty).getD []
+
+/-- rule level (if any) before mechanism level -/
+def levels (cfg : Config) (rule : Option Expectation) : List Expectation :=
+  (match rule with | some r => [r] | none => []) ++ [cfg.assertions]
+
+/-- per assertion the value of the first level that sets one; after the configured levels come: the issuer named
+by the server metadata, no audience, no scope requirement, the default algorithms, no leeway setting (= 10 s) -/
+def inForce (cfg : Config) (rule : Option Expectation) (metaIssuer : String) : Expectation :=
+  { issuers := firstSet ((levels cfg rule).map (·.issuers) ++ [[metaIssuer]])
+    audiences := firstSet ((levels cfg rule).map (·.audiences))
+    scopes := (levels cfg rule).findSome? (·.scopes)
+    algs := firstSet ((levels cfg rule).map (·.algs) ++ [Gen.defaultAllowed])
+    leeway := (((levels cfg rule).map (·.leeway)).find? fun l => l != 0).getD 0 }
+
+/-- the server metadata: with a JWKS endpoint none is needed; otherwise the document must be there and name a
+key-set endpoint -/
+def metadata (cfg : Config) (w : World) : Option Metadata :=
+  if cfg.jwksMode then some { issuer := "", hasJwks := true }
+  else w.metadata.bind fun m => if m.hasJwks then some m else none
+
+/-- which key set is responsible: with a templated endpoint the one of the issuer the token claims -/
+def endpoint (cfg : Config) (kvs : List (String × Val)) : String :=
+  if cfg.jwksMode ∧ cfg.templated then
+    match member "iss" kvs with
+    | some (.str s) => s
+    | _ => "<no value>"
+  else ""
+
+end Spec
+
 /-! ## Entitlement -/
 
-/-- The key `k` entitles the token to be accepted. -/
-structure Entitled (a : Expectation) (validateJwk : Bool) (ks : List Key) (tok : Token) (c : Claims) (nowMs : Int)
-    (k : Key) : Prop where
+/-- The key `k` of the key set `ks` entitles the token with payload members `kvs` to be accepted under the
+assertions `a` at the instant `nowMs` (milliseconds). -/
+structure Entitled (a : Expectation) (validateJwk : Bool) (ks : List Key) (tok : Token)
+    (kvs : List (String × Val)) (nowMs : Int) (k : Key) : Prop where
   /-- the key was obtained from the key-set endpoint -/
   fromKeySet : k ∈ ks
   /-- a token naming a key is verified with that key only, and the name must be unique in the key set -/
@@ -54,14 +156,17 @@ structure Entitled (a : Expectation) (validateJwk : Bool) (ks : List Key) (tok :
   algAllowed : k.alg ∈ a.algs
   /-- the signature verifies with this key -/
   signed : k.usable = true ∧ tok.critOk = true ∧ tok.sigOk k.mat = true
-  issuerTrusted : c.iss ∈ a.issuers
-  audienceOk : a.audiences = [] ∨ ∃ x ∈ a.audiences, x ∈ c.aud
-  scopesOk : Satisfied a.scopes c.granted
+  /-- the registered claims have admissible shapes -/
+  wellTyped : Spec.wellTyped kvs = true
+  /-- the token names an issuer and it is trusted -/
+  issuerTrusted : ∃ i, Spec.issuer kvs = some i ∧ i ∈ a.issuers
+  audienceOk : a.audiences = [] ∨ ∃ x ∈ a.audiences, x ∈ Spec.audiences kvs
+  scopesOk : Satisfied a.scopes (Spec.granted kvs)
   /-- inside the validity period, widened by the leeway (whole seconds) on both sides -/
-  notBefore : ∀ t, c.nbf = some t → t ≤ nowMs / 1000 + a.leewaySec
-  notExpired : ∀ t, c.exp = some t → nowMs / 1000 - a.leewaySec < t
+  notBefore : ∀ t, Spec.date "nbf" kvs = some t → t ≤ nowMs / 1000 + a.leewaySec
+  notExpired : ∀ t, Spec.date "exp" kvs = some t → nowMs / 1000 - a.leewaySec < t
   /-- not issued in the future (beyond the leeway) -/
-  issued : ∀ t, c.iat = some t → t * 1000 ≤ nowMs + a.leewayMs
+  issued : ∀ t, Spec.date "iat" kvs = some t → t * 1000 ≤ nowMs + a.leewayMs
 
 /-- the subject is made of values found in the payload: the id is the textual form of the value at the id path
 and is not empty, the attributes are the object at the attributes path (the whole payload by default) -/
@@ -69,15 +174,16 @@ def SubjectOf (sc : SubjectConf) (payload : Val) (id : String) (attrs : Val) : P
   ∃ v, payload.get sc.idPath = some v ∧ idString v = some id ∧ id ≠ "" ∧
     ∃ kvs, attrs = .obj kvs ∧ attrsSource sc payload = some (.obj kvs)
 
-/-- acceptance of a request: a parsable token whose payload is a claims object, reachable endpoints, and a key
-of the fetched key set that entitles the token under the assertions in force -/
+/-- acceptance of a request on a cold cache: a parsable, canonically serialised token with a supported algorithm
+whose payload is a JSON object, reachable endpoints, and a key of the key set fetched for this token that entitles it
+under the assertions in force; `(id, attrs)` is the subject of that payload -/
 def Accepts (cfg : Config) (rule : Option Expectation) (w : World) (p : Presented) (nowMs : Int)
     (id : String) (attrs : Val) : Prop :=
-  ∃ tok pl kvs md ks c k,
-    cfg.ok = true ∧ p = .token tok ∧ tok.alg ∈ Gen.supported ∧ tok.payload = some pl ∧ pl.members = some kvs ∧
-    resolveMetadata cfg w = .ok md ∧ w.jwks = some ks ∧ decodeClaims kvs = some c ∧
-    Entitled (effective cfg rule md.issuer) cfg.validateJwk ks tok c nowMs k ∧
-    SubjectOf cfg.subject pl id attrs
+  ∃ tok kvs md ks k,
+    cfg.ok = true ∧ p = .token tok ∧ tok.alg ∈ Gen.supported ∧ tok.canonical = true ∧
+    tok.payload = some (.obj kvs) ∧ Spec.metadata cfg w = some md ∧ w.jwks (Spec.endpoint cfg kvs) = some ks ∧
+    Entitled (Spec.inForce cfg rule md.issuer) cfg.validateJwk ks tok kvs nowMs k ∧
+    SubjectOf cfg.subject (.obj kvs) id attrs
 
 /-! ## Executable oracle -/
 
@@ -94,46 +200,80 @@ def Outcome.verdict : Outcome → Verdict
   | .noAuthenticator => .noAuthenticator
   | .unmodelled => .unmodelled
 
+/-- what the implementation can deliver of a verdict: attribute numbers as doubles -/
+def Verdict.rounded : Verdict → Verdict
+  | .subject id attrs => .subject id attrs.round
+  | v => v
+
 namespace Spec
 
+/-- hierarchic strategy: the granted scope is the required one or one of its ancestors -/
+def hier (g r : String) : Bool :=
+  g == r || (decide (g.utf8ByteSize ≤ r.utf8ByteSize) && (parts g).isPrefixOf (parts r) &&
+    decide ((parts g).length < (parts r).length))
+
+/-- wildcard strategy on parts -/
+def wild : List String → List String → Bool
+  | [], [] => true
+  | [m], n :: ns => if ns.isEmpty then (m == "*" && n != "") || m == n else m == "*" && n != ""
+  | m :: m' :: ms, n :: ns => ((m == "*" && n != "") || m == n) && wild (m' :: ms) ns
+  | _, _ => false
+
+def covers : Strategy → String → String → Bool
+  | .exact, g, r => g == r
+  | .hierarchic, g, r => hier g r
+  | .wildcard, g, r => wild (parts g) (parts r)
+
+def satisfied (m : Option ScopesMatcher) (granted : List String) : Bool :=
+  match m with
+  | none => true
+  | some m => m.required.all fun r => granted.any fun g => covers m.strategy g r
+
 /-- all clauses of `Entitled` as one conjunction -/
-def entitledB (a : Expectation) (validateJwk : Bool) (ks : List Key) (tok : Token) (c : Claims) (nowMs : Int)
-    (k : Key) : Bool :=
+def entitles (a : Expectation) (validateJwk : Bool) (ks : List Key) (tok : Token) (kvs : List (String × Val))
+    (nowMs : Int) (k : Key) : Bool :=
   (tok.kid == "" || ks.filter (fun k' => k'.kid = tok.kid) == [k]) &&
   (!validateJwk || k.cert != .untrusted) &&
   k.alg == tok.alg && a.algs.contains k.alg &&
   k.usable && tok.critOk && tok.sigOk k.mat &&
-  a.issuers.contains c.iss &&
-  (a.audiences.isEmpty || a.audiences.any (c.aud.contains ·)) &&
-  a.scopesOk c.granted &&
-  (match c.nbf with | some t => decide (t ≤ nowMs / 1000 + a.leewaySec) | none => true) &&
-  (match c.exp with | some t => decide (nowMs / 1000 - a.leewaySec < t) | none => true) &&
-  (match c.iat with | some t => decide (t * 1000 ≤ nowMs + a.leewayMs) | none => true)
+  wellTyped kvs &&
+  (match issuer kvs with | some i => a.issuers.contains i | none => false) &&
+  (a.audiences.isEmpty || a.audiences.any ((audiences kvs).contains ·)) &&
+  satisfied a.scopes (granted kvs) &&
+  (match date "nbf" kvs with | some t => decide (t ≤ nowMs / 1000 + a.leewaySec) | none => true) &&
+  (match date "exp" kvs with | some t => decide (nowMs / 1000 - a.leewaySec < t) | none => true) &&
+  (match date "iat" kvs with | some t => decide (t * 1000 ≤ nowMs + a.leewayMs) | none => true)
 
-/-- everything that has to be there before keys are looked at -/
-def preconditions (cfg : Config) (w : World) (p : Presented) :
-    Option (Token × Val × List (String × Val) × Metadata × List Key × Claims) :=
-  match p with
-  | .token tok =>
-    if Gen.supported.contains tok.alg then do
-      let pl ← tok.payload
-      let kvs ← pl.members
-      let md ← (resolveMetadata cfg w).toOption
-      let ks ← w.jwks
-      let c ← decodeClaims kvs
-      pure (tok, pl, kvs, md, ks, c)
-    else none
-  | _ => none
+/-- the subject of a payload -/
+def subjectOf (sc : SubjectConf) (pl : Val) : Verdict :=
+  match (pl.get sc.idPath).map idString with
+  | none => .refused
+  | some none => .unmodelled
+  | some (some id) =>
+    if id = "" then .refused
+    else
+      match attrsSource sc pl with
+      | some (.obj kvs) => .subject id (.obj kvs)
+      | _ => .refused
 
+/-- the verdict the property demands for one request on a cold cache -/
 def authenticate (cfg : Config) (rule : Option Expectation) (w : World) (p : Presented) (nowMs : Int) : Verdict :=
-  if !cfg.ok then .noAuthenticator
+  if cfg.jwksMode ∧ cfg.assertions.issuers = [] then .noAuthenticator
   else
-    match preconditions cfg w p with
-    | none => .refused
-    | some (tok, pl, _, md, ks, c) =>
-      if ks.any (entitledB (effective cfg rule md.issuer) cfg.validateJwk ks tok c nowMs) then
-        (subject cfg.subject pl).verdict
-      else .refused
+    match p with
+    | .token tok =>
+      match tok.payload with
+      | some (.obj kvs) =>
+        if Gen.supported.contains tok.alg ∧ tok.canonical = true then
+          match metadata cfg w, w.jwks (endpoint cfg kvs) with
+          | some md, some ks =>
+            if ks.any (entitles (inForce cfg rule md.issuer) cfg.validateJwk ks tok kvs nowMs) then
+              subjectOf cfg.subject (.obj kvs)
+            else .refused
+          | _, _ => .refused
+        else .refused
+      | _ => .refused
+    | _ => .refused
 
 end Spec
 
